@@ -18,6 +18,7 @@ from gen import elemsets as G
 from gen.coqfmt import HEADER, clist, cstr
 
 ID_POOL = ["a", "b", "c", "x1", "n-2", "id"]
+REAL_IDS = ["x", "A", "+", "mjx-eqn:2", "term(2)", "n#3", "\u00e9", "7", "a.b", "_"]      # ids as documents have them: one letter, punctuation, non-ASCII
 CONTAINERS = ["mrow", "mfrac", "msup", "msub", "msqrt", "mrow", "mover"]
 LEAVES = [("mi", "x"), ("mi", "y"), ("mn", "2"), ("mn", "13"), ("mo", "+"), ("mo", "="), ("mtext", "if")]
 ARITY = {"mfrac": 2, "msup": 2, "msub": 2, "mover": 2, "msqrt": 1}
@@ -111,7 +112,7 @@ def with_author_ids(body, rng, mode):
         if mode == "dups" and used and rng.random() < 0.4:
             i = rng.choice(used)
         else:
-            i = "au%d" % len(used)
+            i = REAL_IDS[len(used)] if len(used) < len(REAL_IDS) and rng.random() < 0.5 else "au%d" % len(used)
             used.append(i)
         marks.setdefault(i, []).append(tag)
         return "<%s%s id='%s'%s" % (tag, rest, i, close)
@@ -214,6 +215,8 @@ def api_oracle(res, rng):
             v = x["ok"]
             if isinstance(v, str):
                 handed += re.findall(r"<mark name='([^']*)'/>", v)
+                if v.count("<mark name=") != len(re.findall(r"<mark name='([^']*)'/>", v)):
+                    handed.append("(a bookmark that is not of the form <mark name='id'/>) " + v[v.find("<mark name="):][:60])
             elif isinstance(v, list) and v and isinstance(v[0], str) and not v[0].lstrip().startswith("<"):
                 handed.append(v[0])
         bad = [h for h in handed if h not in idset]
@@ -287,6 +290,52 @@ def reuse_oracle(res, rng):
     return nv
 
 
+def same_again_oracle(res, rng):
+    """the same expression set again (byte for byte) after navigation and place markers: every id the library hands out
+    afterwards is an id of the MathML returned by the LAST set_mathml"""
+    bodies = list(X.FIXED[:12]) + [X.gen(rng, 2) for _ in range(4 if res.tier == "quick" else 60)]
+    sessions, meta = [], []
+    for b in bodies:
+        partial, _ = with_author_ids(b, rng, "some")
+        for xml in (b, partial):
+            m = X.math(xml)
+            k = rng.randint(0, 9)
+            ops = [["set_rules_dir", C.RULES], ["set_mathml", m], ["do_navigate_command", "ZoomIn"], ["do_navigate_command", rng.choice(["MoveNext", "ZoomIn", "MoveEnd"])],
+                   ["do_navigate_command", "SetPlacemarker%d" % k], ["do_navigate_command", "MoveStart"], ["set_mathml", m]]
+            for c in ("MoveTo%d" % k, "Read%d" % k, "MoveLastLocation", "MoveNext"):
+                ops += [["do_navigate_command", c], ["get_navigation_mathml_id"]]
+            ops += [["do_navigate_keypress", 48 + k, False, False, False, False], ["get_navigation_mathml_id"], ["get_navigation_mathml"]]
+            sessions.append({"id": len(sessions), "ops": ops})
+            meta.append((m, k))
+    nv = 0
+    for (m, k), r in zip(meta, C.run_harness(sessions)):
+        rs = r.get("res") or []
+        if len(rs) != len(sessions[0]["ops"]) and len(rs) < 8:
+            continue
+        if len(rs) < 8 or "ok" not in rs[6]:
+            continue
+        ids = set(re.findall(r"\bid='([^']*)'", rs[6]["ok"]))
+        res.add_case(("same-again", m), nontrivial=True)
+        for op, x in zip(sessions[0]["ops"][7:], rs[7:]):
+            if "panic" in x:
+                res.violation("after the same expression was set again: %s panics: %s" % (op, x["panic"]), {"kind": "same-again", "mathml": m, "marker": k})
+                nv += 1
+                break
+            if op[0] == "get_navigation_mathml_id" and "ok" in x and x["ok"][0] not in ids:
+                res.violation("after the same expression was set again, navigation hands out the id %r, which is not in the MathML returned last" % x["ok"][0],
+                              {"kind": "same-again", "mathml": m, "marker": k, "observed": x["ok"]})
+                nv += 1
+                break
+            if op[0] == "get_navigation_mathml_id" and "err" in x and "not found" in x["err"]:
+                res.violation("after the same expression was set again, the navigation position is an id that is not in the expression: %s" % x["err"][:120],
+                              {"kind": "same-again", "mathml": m, "marker": k, "observed": x})
+                nv += 1
+                break
+        if nv >= 3:
+            break
+    return nv
+
+
 def run(res):
     res.rule = ("tie: seeded trees (depth 1-4) with no / some / all / duplicated author ids through the real add_ids; oracle: fixed + seeded "
                 "textbook expressions with author ids (some / all / duplicated) on tokens and 2-D elements through set_mathml, then SSML "
@@ -309,11 +358,13 @@ def run(res):
                     break
         n += api_oracle(res, rng)
         n += reuse_oracle(res, rng)
+        n += same_again_oracle(res, rng)
         return n > 0
     proved = C.check_proofs(res, "C09", ["Props/C09.vo", "Tie/C09Tie.vo"], "Props/C09.v", search=on_broken)
     if proved:
         api_oracle(res, rng)
         reuse_oracle(res, rng)
+        same_again_oracle(res, rng)
     res.trusted += ["a generated id (M + 3 time + 4 random base-36 characters + '-' + n) never equals an author id (different constructors in the model)"]
     res.assumptions += ["that canonicalization keeps an author id on the element carrying the token's text is exercised through set_mathml, not proved (needs the C01 model)",
                         "ids handed out by navigation / bookmarks / routing are checked on the library here and covered by the C11 invariant, the C13 and C20 oracles"]
@@ -325,6 +376,13 @@ def replay(path):
     if not ok:
         print("harness build failed", log)
         return 2
+    if rep.get("kind") == "same-again":
+        k = rep["marker"]
+        r = C.one_session([["set_mathml", rep["mathml"]], ["do_navigate_command", "ZoomIn"], ["do_navigate_command", "SetPlacemarker%d" % k], ["set_mathml", rep["mathml"]],
+                           ["do_navigate_command", "MoveTo%d" % k], ["get_navigation_mathml_id"]])["res"]
+        print(str(r[-2:])[:600])
+        ids = set(re.findall(r"\bid='([^']*)'", r[3].get("ok", "")))
+        return 1 if "panic" in r[-1] or "err" in r[-1] or ("ok" in r[-1] and r[-1]["ok"][0] not in ids) else 0
     if rep.get("kind") == "reuse":
         r = C.one_session([["set_mathml", rep["mathml"]]] + [["h_set_mathml_reusing_last", m, e] for m, e in rep["steps"]])["res"]
         bad = 0
